@@ -96,6 +96,19 @@ fn main() {
                 None => format!("unsolved\n{}", fmt_records(&recs)),
             }
         }),
+        // csolve K T : intermediate symbols of the public encoder path on tagged data, without the (huge) operation list
+        "csolve" => catch(|| {
+            let k: usize = arg(&a, 1);
+            let t: usize = arg(&a, 2);
+            let syms: Vec<Vec<u8>> = (0..k).map(|i| (0..t).map(|b| ((i * 131 + b * 29 + 17) % 251) as u8).collect()).collect();
+            let data: Vec<u8> = syms.iter().flatten().copied().collect();
+            let cfg = ObjectTransmissionInformation::new(data.len() as u64, t as u16, 1, 1, 1);
+            let enc = SourceBlockEncoder::new(0, &cfg, &data);
+            let c = vh::intermediate_symbols_of(&enc);
+            let rp = enc.repair_packets(0, 2);
+            format!("csolved\nSRC {}\nC {}\nREPAIR {}", syms.iter().map(|x| hex(x)).collect::<Vec<_>>().join(","),
+                    c.iter().map(|x| hex(x)).collect::<Vec<_>>().join(","), rp.iter().map(|p| hex(p.data())).collect::<Vec<_>>().join(","))
+        }),
         // plan K : SourceBlockEncodingPlan::generate(K) operations; and replay of it on tagged data T
         "plan" => catch(|| {
             let k: usize = arg(&a, 1);
